@@ -270,8 +270,17 @@ def balanced_network(draw, max_reactions=10):
     reactions = []
     nre = draw(st.integers(1, max_reactions))
     for _ in range(nre):
-        kind = draw(st.sampled_from(["gas", "gas", "gas", "ion", "ion", "freeze", "desorb", "surface", "excite"]))
-        if kind == "excite":
+        kind = draw(st.sampled_from(["gas", "gas", "gas", "ion", "ion", "freeze", "desorb", "surface", "excite"] * 2 + ["twin"]))
+        if kind == "twin":
+            # two species whose names (and index macros) differ only in letter case: para-H2 `pH2` next to the phosphorus hydride `PH2`,
+            # ortho-D2 `oD2` next to heavy water `OD2`: X B2 (q) -> X (q) + <label>B2
+            lab, el, base = draw(st.sampled_from([("p", "P", "H"), ("p", "P", "D"), ("o", "O", "H"), ("o", "O", "D")]))
+            q = draw(st.sampled_from([0, 0, 1]))
+            r = [intern(_mol([[el, 1], [base, 2]], q=q))]
+            p = [intern(_mol([[el, 1]], q=q)), intern(_mol([[base, 2]], l=lab))]
+            if draw(st.booleans()):
+                r, p = p, r
+        elif kind == "excite":
             # X* -> X (de-excitation) or X + M -> X* + M (collisional excitation): balanced, two distinct species
             base = draw(gas_molecule(elements, max_tokens=2, allow_label=False, charges=(0,)))
             if sum(c for _, c in base["t"]) < 2:
